@@ -102,11 +102,14 @@ Section SearcherGlue.
     else (slice_by_line_run cfg M reply_of s, st).
 
   (* Searcher::search_file_maybe_path: memory map, else the whole file on the heap for a multi-line
-     search (NB: this branch does not call check_config), else the generic reader *)
+     search, else the generic reader.  The multi-line branch checks the configuration first, like
+     the other entry points (repair e67305d of finding D22; the pre-repair behaviour is pinned in
+     Proofs/SearcherGluePinned.v) *)
   Definition search_file_m (reply_of : nat -> reply) (st : searcher_state) (mmap_ok : bool) (s : bytes)
                            (hist : list read_step) : run_result * searcher_state :=
     if mmap_ok then search_slice_m reply_of st s else
     if multi_line_with_matcher cfg M then
+      if negb check_config then (RunErr [], st) else
       let st := fill_multi_line st (decode s) in
       (multi_line_run cfg M reply_of (ss_ml st), st)
     else search_reader_m reply_of st s hist.
